@@ -124,7 +124,7 @@ type concIn struct {
 }
 
 type concOut struct {
-	Variant [6]int      `json:"variant"`
+	Variant [7]int      `json:"variant"`
 	Results [][]int     `json:"results"` // per thread: [kind, n, c] for lookups, [] otherwise
 	Calls   [][][3]int  `json:"calls"`   // per thread: the storage calls it issued
 	Sched   []int       `json:"sched"`   // the schedule actually executed (given schedule + completion suffix)
